@@ -2,7 +2,6 @@ package iosizer
 
 import (
 	"io"
-	"math"
 	"sync/atomic"
 )
 
@@ -29,10 +28,9 @@ func (s *SizeReadWriter) Read(p []byte) (n int, err error) {
 		return 0, io.EOF
 	}
 	n, err = s.rdr.Read(p)
-	// G115: Protect against integer overflow by checking n <= math.MaxUint32 before conversion to uint64
-	// G115: Protect against integer overflow by checking n <= math.MaxUint32 before conversion to uint64
-	if n > 0 && n <= math.MaxUint32 {
-		s.total.Add(uint64(n))
+	// n > 0 makes the conversion to uint64 safe (G115)
+	if n > 0 {
+		s.total.Add(uint64(n)) //nolint:gosec
 	}
 	return
 }
@@ -43,8 +41,8 @@ func (s *SizeReadWriter) Write(p []byte) (n int, err error) {
 		return 0, io.EOF
 	}
 	n, err = s.wtr.Write(p)
-	if n > 0 && n <= math.MaxUint32 {
-		s.total.Add(uint64(n))
+	if n > 0 {
+		s.total.Add(uint64(n)) //nolint:gosec
 	}
 	return
 }
